@@ -165,6 +165,20 @@ func init() {
 		}
 		return bigFromValue(args[0].(*value)).String()
 	}
+	stubs["(*math/big.Int).MarshalJSON"] = func(fr *frame, args []value) value {
+		if args[0].(*value) == nil {
+			return tuple{bytesToValues([]byte("null")), iface{}}
+		}
+		b, _ := bigFromValue(args[0].(*value)).MarshalJSON()
+		return tuple{bytesToValues(b), iface{}}
+	}
+	stubs["(*math/big.Int).MarshalText"] = func(fr *frame, args []value) value {
+		b, _ := bigFromValue(args[0].(*value)).MarshalText()
+		return tuple{bytesToValues(b), iface{}}
+	}
+	stubs["(*math/big.Int).Text"] = func(fr *frame, args []value) value {
+		return bigFromValue(args[0].(*value)).Text(int(fr.i.concreteInt(args[1])))
+	}
 	stubs["(*math/big.Int).Bytes"] = func(fr *frame, args []value) value {
 		bs := bigFromValue(args[0].(*value)).Bytes()
 		out := make([]value, len(bs))
